@@ -27,7 +27,19 @@ MIN_HELD = {'quick': 300, 'thorough': 23923}
 
 def cells(tier, seed):
     # (user-defined random banks are not perfect-reconstruction pairs: outside C02)
-    return [c for c in c01.cells(tier, seed + 2000) if not c.get('custom')]
+    out = [c for c in c01.cells(tier, seed + 2000) if not c.get('custom')]
+    # mode names known to the library's mode codes but refused by the filter banks on this tree ('constant',
+    # 'replicate'): out of scope as long as the forward refuses them, in scope as soon as it returns
+    rnd = core.rng_for(seed, PROP, tier, 'extra-modes')
+    for i in range(8 if tier == 'quick' else 80):
+        m = ['constant', 'replicate'][i % 2]
+        if i % 4 < 2:
+            out.append({'dim': 1, 'wave': rnd.choice(['db2', 'db4', 'sym5', 'bior2.2']), 'mode': m, 'J': rnd.choice([1, 2]),
+                        'shape': [rnd.choice([9, 16, 21])], 'N': 2, 'C': 2, 'extra_mode': True})
+        else:
+            out.append({'dim': 2, 'wave': rnd.choice(['db2', 'db4', 'sym5', 'bior2.2']), 'mode': m, 'J': rnd.choice([1, 2]),
+                        'shape': [rnd.choice([8, 9, 12]), rnd.choice([7, 10])], 'N': 1, 'C': 2, 'extra_mode': True})
+    return out
 
 
 def build_inv(cell, dtype=None):
@@ -55,7 +67,31 @@ def pywt_rt_error(cell, xn):
         return None
 
 
+def extra_mode_cell(cell, seed):
+    case = {'cell': cell, 'input': 'randn'}
+    sp = cell['shape']
+    x = util.make_input('randn', [cell['N'], cell['C']] + sp, seed)
+    ok, fwd = util.call_lib(c01.build, cell)
+    ok, pyr = util.call_lib(fwd, x) if ok else (False, fwd)
+    if not ok:
+        return [res(core.SKIPPED, case, 'M-RT', 'the forward transform refuses this mode name: %s' % type(pyr).__name__)]
+    ok, inv = util.call_lib(build_inv, cell)
+    ok, y = util.call_lib(inv, pyr) if ok else (False, inv)
+    if not ok:
+        return [res(VIOLATED, case, 'M-RT', 'the forward transform returns in mode %r but the inverse raised %r' % (cell['mode'], y))]
+    want = list(x.shape)
+    got = list(y.shape)
+    if not (len(got) == len(want) and got[:2] == want[:2] and all(g == w or (w % 2 == 1 and g == w + 1) for g, w in zip(got[2:], want[2:]))):
+        return [res(VIOLATED, case, 'M-SHAPE', 'reconstruction shape %s for input %s' % (got, want))]
+    sl = (slice(None), slice(None)) + tuple(slice(0, w) for w in want[2:])
+    G = c01.total_gain(cell) * c01.total_gain(cell, True)
+    okc, detail, ratio = util.compare('inverse(forward(x))', y[sl], util.np64(x), 1e-9 * G * float(x.abs().max()))
+    return [res(HELD, case, 'M-RT', ratio=ratio) if okc else res(VIOLATED, case, 'M-RT', detail, ratio=ratio)]
+
+
 def run_cell(cell, seed):
+    if cell.get('extra_mode'):
+        return extra_mode_cell(cell, seed)
     out = []
     fwd, inv = c01.build(cell), build_inv(cell)
     sp = cell['shape']
